@@ -47,7 +47,8 @@ def snapOf (d : Drv) (keep : Task → Bool) : String :=
     s!"{t}=" ++ "{" ++ ",".intercalate ((d.s.u.names t).mergeSort (fun a b => decide (a ≤ b))) ++ "}")
   s!"[{st} | ours={ours} | cb={cbs} | ctx={ctx} | t2n={t2n} | q={showNats d.s.u.reaperQ}]"
 
-def ap (d : Drv) (op : Op String) : Drv := { d with s := step current d.s op }
+/-- observed runs are replayed with the steps ASSEMBLED FROM THE EXTRACTED SHAPE TABLES (`C14_shape_step`: = `step current`) -/
+def ap (d : Drv) (op : Op String) : Drv := { d with s := stepSh C13.Shape.extracted current d.s op }
 
 def outcome? (kind : String) (v : Nat) : Option Outcome :=
   match kind with
